@@ -1,5 +1,6 @@
 """C13 — async callables get the same contract semantics as sync ones (paired sync/async renderings)."""
 import copy
+import inspect
 from typing import Any, Dict, List, Tuple
 
 from vkit import gen, probe, prog, runner
@@ -258,6 +259,80 @@ def run_coroutine_invariants(w) -> None:
                     loaded.unload()
 
 
+SIGNATURE_SOURCE = '''
+import icontract
+
+
+def pre_x(x):
+    return HUB.cond("pre_x", {"x": x})
+
+
+def pre_k(k):
+    return HUB.cond("pre_k", {"k": k})
+
+
+def snap_x(x):
+    return HUB.capture("snap_x", {"x": x})
+
+
+def post_x(x, result, OLD):
+    return HUB.cond("post_x", {"x": x, "result": result})
+
+
+{a}def posonly_kwargs(x, /, **kwargs):
+    return HUB.body("posonly_kwargs", {"x": x, "kwargs": kwargs})
+
+
+{a}def posonly_default_kwargs(x=0, /, **kwargs):
+    return HUB.body("posonly_default_kwargs", {"x": x, "kwargs": kwargs})
+
+
+{a}def kwonly_after_varargs(x, *rest, k=10):
+    return HUB.body("kwonly_after_varargs", {"x": x, "rest": rest, "k": k})
+
+
+posonly_kwargs = icontract.snapshot(snap_x, name="s")(icontract.ensure(post_x, error=HUB.errinst("post_x"))(
+    icontract.require(pre_x, error=HUB.errinst("pre_x"))(posonly_kwargs)))
+posonly_default_kwargs = icontract.require(pre_x, error=HUB.errinst("pre_x"))(posonly_default_kwargs)
+kwonly_after_varargs = icontract.require(pre_k, error=HUB.errinst("pre_k"))(icontract.require(pre_x, error=HUB.errinst("pre_x"))(kwonly_after_varargs))
+'''
+
+SIGNATURE_CALLS = [
+    ("posonly_kwargs", (1,), {"x": -5}), ("posonly_kwargs", (-1,), {"x": 5}), ("posonly_kwargs", (2,), {"y": 3}),
+    ("posonly_default_kwargs", (), {"x": 7}), ("posonly_default_kwargs", (3,), {"x": 7}),
+    ("kwonly_after_varargs", (1, 2, 3), {}), ("kwonly_after_varargs", (1, 2), {"k": 4}), ("kwonly_after_varargs", (1,), {}),
+]
+
+
+def run_signature_pairs(w) -> None:
+    """Argument binding seen by the contracts: the same calls on `def` and `async def` renderings of special signatures."""
+    sync_l = prog.load_source(SIGNATURE_SOURCE.replace("{a}", ""), w.scratch())
+    async_l = prog.load_source(SIGNATURE_SOURCE.replace("{a}", "async "), w.scratch())
+    try:
+        for name, args, kwargs in SIGNATURE_CALLS:
+            traces = []
+            for loaded in (sync_l, async_l):
+                loaded.hub.reset()
+                try:
+                    res = getattr(loaded.module, name)(*args, **kwargs)
+                    if inspect.iscoroutine(res):
+                        res = probe.drive(res)
+                    outcome = "return"
+                except BaseException as err:  # pylint: disable=broad-except
+                    outcome = "raise " + type(err).__name__
+                traces.append(([(e.kind, e.id, repr(sorted((k, repr(v)) for k, v in (e.got or {}).items() if k != "OLD"))) for e in loaded.hub.events], outcome))
+            w.count("pairs_compared")
+            w.count("signature_pairs_compared")
+            w.count("events_compared", len(traces[0][0]))
+            w.case(("signature-pair", name, str(args), str(sorted(kwargs))))
+            if traces[0] != traces[1]:
+                w.violation("C13/contracts-of-the-async-rendering-see-other-arguments", "{}(*{}, **{}): sync {} vs async {}".format(
+                    name, args, kwargs, traces[0], traces[1]), {"signature_pair": name, "args": list(args), "kwargs": kwargs})
+    finally:
+        sync_l.unload()
+        async_l.unload()
+
+
 def specs(w):
     rng = w.rng
     thorough = w.tier == "thorough"
@@ -293,10 +368,14 @@ def run(w) -> None:
     if w.shard == 0:
         run_async_on_sync(w)
         run_coroutine_invariants(w)
+        run_signature_pairs(w)
     w.exhaustive = False
 
 
 def replay(case, w) -> None:
+    if "signature_pair" in case:
+        run_signature_pairs(w)
+        return
     if "coroutine_invariant" in case:
         run_coroutine_invariants(w)
         return
